@@ -28,6 +28,19 @@ def ref_app(file):
     return False, None
 
 
+def view_of(obs):
+    """What a snapshot says (frames, names, types, texts, structure), without this run's ids."""
+    tbl = {e["vid"]: e for e in obs["table"]}
+
+    def ent(vid, depth=0):
+        e = tbl.get(vid)
+        if e is None or depth > 5:
+            return None
+        return (e["ty"], e["val"], e["trunc"], tuple((c["name"], ent(c["vid"], depth + 1)) for c in e["children"]))
+    return ([(f["file"], f["short"], f["func"], f["line"], f["cls"], f["app"], [(v["name"], ent(v["vid"])) for v in f["vars"]]) for f in obs["frames"]],
+            [(w["expr"], w["error"], None if w["ref"] is None else ent(w["ref"]["vid"])) for w in obs["watches"]])
+
+
 def oracle(ctx, case, heap, snap, obs, desc, tp_id="tp-0", args=None, live=False):
     lim = case["limits"]
     flags = e1.collect_flags(case)
@@ -330,6 +343,7 @@ def run(ctx):
     ctx.prove()
     saved = e1.install_clock()
     lits, cj, flits, fcj = [], [], [], []
+    first_cases = []
     try:
         n = 2500 if ctx.thorough else 400
         for i in range(n):
@@ -347,6 +361,8 @@ def run(ctx):
                      nontrivial=bool(snaps and snaps[0].var_lookup), bucket="%s friendly=%s" % (case["frame_type"], friendly))
             if raised is not None or len(snaps) != n_act:
                 e1.no_snapshot(ctx, desc, raised)       # the delivered ones are still examined
+            if len(first_cases) < 15 and len(snaps) == n_act and raised is None:
+                first_cases.append((case, n_act, [view_of(e1.observe(sn, heap)) for sn in snaps], desc))
             for snap in snaps:
                 k = int(str(snap.tracepoint.id).rsplit("-", 1)[-1]) if str(snap.tracepoint.id).startswith("tp-") else 0
                 dk = dict(desc, tracepoint="%d of %d on the line" % (k + 1, n_act)) if n_act > 1 else desc
@@ -359,6 +375,16 @@ def run(ctx):
                     fcj.append(dk)
                 except ValueError as ex:
                     ctx.fail("snapshot cannot be related to the program's objects: %s" % ex, dk, tag="unrelated")
+        # a snapshot describes the paused frame, not the history of the process: the first cases collected AGAIN after everything
+        # else read exactly as they did the first time
+        for case, n_act, views, desc in first_cases:
+            snaps2, raised2 = e1.run_impl(case, n_actions=n_act)
+            heap2 = e1.read_heap(case)
+            views2 = [view_of(e1.observe(sn, heap2)) for sn in snaps2] if raised2 is None else None
+            ctx.case(dict(recollected=True, limits=desc["limits"]), nontrivial=True, bucket="recollected")
+            if views2 != views:
+                ctx.fail("the same frame collected again at the end of the run reads differently: %r, at first %r" % (
+                    str(views2)[:300], str(views)[:300]), desc, kind="history", tag="depends-on-history")
         live_cases(ctx, 120 if ctx.thorough else 24)
     finally:
         e1.restore_clock(saved)
